@@ -148,7 +148,7 @@ structure OutPlan (n k e : Nat) (out : List MigSlots) : Prop where
     recvBy (fun mm => (mm.dstChunk - n) * 2 + mm.dstPart) out j = quota ((n + k) * 2) (n * 2 + j)
   nothing_else : ∀ j, k * 2 ≤ j → recvBy (fun mm => (mm.dstChunk - n) * 2 + mm.dstPart) out j = 0
   shape : ∀ ms ∈ out, (∃ j, j < k * 2 ∧ ms.mm.dstChunk = n + j / 2 ∧ ms.mm.dstPart = j % 2) ∧
-    ms.mm.srcPart < 2 ∧ ms.mm.srcChunk < n + k ∧ ms.mm.epoch = e
+    ms.mm.srcPart < 2 ∧ ms.mm.srcChunk < n + k ∧ ms.mm.epoch = e ∧ compact ms.ranges = ms.ranges
 
 /-- **the scale-out plan**: on a balanced cluster of `n` chunks followed by `k > 0` empty chunks
 (`2(n+k) ≤ SLOT_NUM`) `remove_slots_from_src` does not panic, does not run out of fuel, leaves
@@ -234,8 +234,8 @@ theorem removeSlotsFromSrc_balanced {cl : Cluster} {A B : List Chunk} {n k : Nat
       exact h'
     · exact hpost.inv.out.later j (by rw [hD]; show k * 2 < j; omega)
   · intro ms hms
-    obtain ⟨j, hj, h1, h2, h3, h4⟩ := hpost.inv.out.shape ms hms
-    refine ⟨⟨j, hj, h1, h2⟩, h3, ?_, h4⟩
+    obtain ⟨j, hj, h1, h2, h3, h4, h5⟩ := hpost.inv.out.shape ms hms
+    refine ⟨⟨j, hj, h1, h2⟩, h3, ?_, h4, h5⟩
     obtain ⟨new, hnew, hsrc⟩ := hpost.outs
     simp only [List.nil_append] at hnew
     have := (hsrc ms (hnew ▸ hms)).2
